@@ -140,10 +140,13 @@ CLAIMS["C13"] = {
             "key/value domain: along every history of <= 3 pulls from the initial state, every emitted pair is a real match of arrived entries, "
             "emitted + queued always equals the cardinality of the join of everything that arrived, and whenever the join stalls (Pending/Ended) "
             "nothing is left queued and exactly the join was emitted; it ends only when both sides ended.",
-    "note": "Hardly covered (and the core of the property's anchors): HalfSetJoinState / HalfMultisetJoinState themselves (FxHashMap + SmallVec + "
-            "VecDeque): the thorough tier runs the REAL states with ONE built pair (concrete keys, symbolic values; ~5 min each: build reports a "
-            "new pair, len, probe of the same / another key, nothing queued) -- duplicate detection, several values per key and the match queue "
-            "need a second table operation, which is outside CBMC's reach; NewTickJoinIter (tied to std hash_map::Iter) is not covered. A change in build/probe/pop_match or in "
+    "note": "Thinly covered (and the core of the property's anchors): HalfSetJoinState / HalfMultisetJoinState themselves (FxHashMap + SmallVec + "
+            "VecDeque). (a) The three files are extracted verbatim (one stated substitution std::collections::hash_map:: -> rustc_hash::hash_map::) and run "
+            "over contract doubles of the hash map and of SmallVec against the HalfJoinState contract in executable form: one built pair + probe "
+            "(hit / miss) + queue + full_probe + clear, and two values built under one key (return value of build -- new pair for sets, always true "
+            "for multisets -- len, full_probe); (b) the thorough tier also runs the REAL states on the REAL hashbrown table with one built pair. "
+            "A probe that returns more than one match (VecDeque::extend of the match queue) and three values under a key exceed 900 s of CBMC and are "
+            "in no tier; NewTickJoinIter (tied to std hash_map::Iter) is not covered. A change in build/probe/pop_match or in "
             "the new-tick iterator is not detected; a change in the orchestration is. Code generators in dfir_lang/ops/join*.rs are not covered.",
     "technique": "contract-based verification: Kani bounded histories of the real pull against a reference implementation of the callee contract",
     "design": "DESIGN.md §5 C13",
